@@ -41,6 +41,10 @@ def run(ctx: Context) -> None:
     ctx.rule('R13.4', "ordering is read from the first two (possibly flipped) values of the copy, deep-to-shallow iff (d1 > d2) == positive-down, and a mismatch reverses the whole dataset along the coordinate's dimension", floor=4)
     ctx.rule('R13.5', "each transformation is dominated by its `is not None` guard and by a comparison of current with requested state (unset options leave that aspect untouched; a second application is a no-op)", floor=4)
     ctx.rule('R13.6', "the convention method forwards the dataset, its depth coordinates and both options unchanged", floor=1)
+    ctx.rule('R13.7', "the depth coordinates handed to the normalisation are the dataset's own variables, found among all variables of the dataset", floor=4)
+    from . import infra as _infra
+    _infra.lookup_namespace(ctx, 'R13.7', ['depth_coordinates', 'depth_coordinate'])
+    _infra.live_depth_coordinates(ctx, 'R13.7')
     ctx.assume("xarray Dataset.copy() gives independent attribute dictionaries and variables; assign/assign_coords/isel return new datasets")
 
     fi = ctx.func(f"{DEPTH}.normalize_depth_variables")
